@@ -7,6 +7,8 @@ defaults included) or only in the return value.  Observed: the side-effect log w
 
 from __future__ import annotations
 
+import copy
+
 from harness import ctxrun
 from harness import gen_ctx as GC
 from harness.common import ImplWorker, Model, Report, rng_for, depth
@@ -18,7 +20,7 @@ def run(tier: str, seed: int, rep: Report, model: Model) -> dict:
     n = depth(tier, 1000, 40000)
     rep.rule = ("conforming contexts with a return hint, one fault placed in a single argument position or only in the return value "
                 "(resize / add / drop axis / dtype / None / non-array); distinct = distinct case; non-trivial = the fault makes the context inconsistent")
-    rep.rule += "; a third of the cases with trailing parameters left at (possibly violating) defaults; signatures with an un-annotated parameter called cls / self; bodies that return their own argument under a return annotation that is a one-step variation of the parameter's"
+    rep.rule += "; a third of the cases with trailing parameters left at (possibly violating) defaults; signatures with an un-annotated parameter called cls / self; bodies that return their own argument under a return annotation that is a one-step variation of the parameter's; 40% of the cases after an earlier conforming call of the same decorated function; faults that are a changed scope-provider value under unchanged arguments"
     cases, where = [], []
     cases.append(sig_case([("x", "a b")], [(2, 3)], ret="a b", retval=(2, 4)))
     where.append("ret")
@@ -36,9 +38,28 @@ def run(tier: str, seed: int, rep: Report, model: Model) -> dict:
         tries += 1
         base = GC.gen_case(rnd, with_ret=1.0)
         w = rnd.choice(["args", "ret"])
-        p = GC.perturb(rnd, base, where=w)
+        p = GC.perturb(rnd, base, where=w) if rnd.random() < 0.85 else None
+        if not p and base.get("provider") and isinstance(base["provider"].get("scope"), dict) and base["provider"]["scope"]:
+            # the fault is a changed provider value: the very same arguments no longer conform
+            c = copy.deepcopy(base)
+            k = rnd.choice(sorted(c["provider"]["scope"]))
+            c["provider"]["scope"][k] += rnd.choice([1, 2, 5])
+            ra_, rall_ = GC.reference(c, "args")["v"], GC.reference(c, "all")["v"]
+            if ra_ in ("accept", "unknown") and rall_ in ("accept", "unknown"):
+                continue
+            w = "args" if ra_ != "accept" else "ret"
+            c["warmup"] = {"args": base["args"], "scope": base["provider"]["scope"], "retval": base["retval"]}
+            rep.streams["provider_value_changed_after_a_conforming_call"] = rep.streams.get("provider_value_changed_after_a_conforming_call", 0) + 1
+            cases.append(c)
+            where.append(w)
+            continue
         if p:
             c = p[0]
+            if rnd.random() < 0.4:
+                # the same decorated function has already been called once, with the conforming values
+                c["warmup"] = {"args": base["args"], "scope": (base.get("provider") or {}).get("scope") if isinstance((base.get("provider") or {}).get("scope"), dict) else None,
+                               "retval": base["retval"]}
+                rep.streams["after_a_conforming_call"] = rep.streams.get("after_a_conforming_call", 0) + 1
             if rnd.random() < 0.35:
                 # trailing parameters get their (possibly violating) value as a declared default and the caller omits them:
                 # a default is validated before the body like a passed value
